@@ -2,7 +2,7 @@
    the cursor interpreter answers on every token list with a finite amount of fuel. *)
 
 From Coq Require Import Lia Bool Strings.String.
-From SwiftMT Require Import Base.Bytes Base.StrOps Engine.Layout Engine.Tokens Engine.Extract Engine.Total Engine.Instance.
+From SwiftMT Require Import Base.Bytes Base.StrOps Engine.Layout Engine.Tokens Engine.Extract Engine.Total Engine.Defs.
 
 Local Open Scope string_scope.
 Local Open Scope list_scope.
